@@ -21,6 +21,7 @@ EXPLANATION = (
     "move_prev_char / move_next_char; (5) every text replacement resets the remembered preferred column (set_edit_text reaches the edit_pos setter or a pref_col_maxcol reset on all paths); "
     "(7) cursor coordinates and click positions are computed on the same text the layout was built from (self.get_text()[0], i.e. the masked text when a mask is set); (6) ALPHABET: valid_char of the numeric variants admits a character only under a membership test in a finite alphabet (or equality with '-'), never a Unicode predicate."
     ' Added after seed round 3: (9) ACCUM on calc_coords / calc_line_pos; (10) OFFSTEP on the position functions (End/Home never return `offset +- 1`); (11) after set_edit_text(), which clamps the cursor, the cursor is not updated relative to self.edit_pos in the same statement sequence.'
+    ' Round 4: (12) LOOPFRESH on calc_coords; (13) the row bounds of Edit.move_cursor_to_coords (C09.10); (14) the UTF-8 scan bound (C11.12).'
 )
 NOT_DECIDED = "Equality with the reference editor: row moves, preferred-column arithmetic, clip-mode view shift, click-to-offset mapping, leading-zero trimming arithmetic of IntEdit/NumEdit."
 ASSUMPTIONS = []
